@@ -107,10 +107,11 @@ def extract(table, cfg_mode, expanded, enc, blocked, nrows, maxlen, via_csv=Fals
 def refusals():
     def h():
         m = M().mciipm
-        which = choose('case', ['no-trailer', 'no-config', 'ok'])
+        which = choose('case', ['no-trailer', 'other-trailer-only', 'no-config', 'ok'])
         rows = [data_row(0, 'IP0040T1', False, 50)]
         rp = {'kind': 'refuse', 'args': {'case': which}}
-        f = build_file(m, [r[0] for r in rows], 'latin_1', False, with_trailer=(which != 'no-trailer'))
+        extra_rows = ['TRAILER RECORD IP0075T1  00000003'] if which == 'other-trailer-only' else []
+        f = build_file(m, extra_rows + [r[0] for r in rows] + extra_rows, 'latin_1', False, with_trailer=(which not in ('no-trailer', 'other-trailer-only')))
         try:
             m.IpmParamReader(f, 'IP0040T1' if which != 'no-config' else 'IP9999T1')
             raised = False
